@@ -34,6 +34,14 @@ func (s *State) WithGas(gc GasCalculator) *State {
 	}
 }
 
+// EndMetering takes the gas meter off the state (the writes made so far stay where they are): what runs at the
+// end of a block is not a transaction and must not fail because the transactions of the block used up its gas limit.
+func (s *State) EndMetering() {
+	if gs, ok := s.cache.(*GasStore); ok {
+		s.cache = gs.SessionedDirectStorage
+	}
+}
+
 func (s *State) GetGasStore() IGasStore {
 	return s.cache
 }
